@@ -46,7 +46,7 @@ def grid_specs(draw, tier):
             "fit": draw(st.booleans())}
 
 
-def _phonopy(spec, smat=None):
+def _phonopy(spec, smat=None, **kw):
     from phonopy import Phonopy
 
     c = build_crystal(spec["crystal"])
@@ -54,7 +54,7 @@ def _phonopy(spec, smat=None):
         return None, Out(nontrivial=False, classes=["discarded_overlap"])
     try:
         ph = Phonopy(c["cell"], supercell_matrix=np.eye(3, dtype=int) if smat is None else smat,
-                     primitive_matrix=None if spec["pmat"] == "none" else "auto", log_level=0)
+                     primitive_matrix=None if spec["pmat"] == "none" else "auto", log_level=0, **kw)
     except Exception as e:
         return None, Out(nontrivial=False, rejected=True, classes=["ctor_rejected:" + type(e).__name__])
     return ph, None
@@ -149,16 +149,25 @@ def obs_specs(draw, tier):
     g["n"] = draw(st.sampled_from([1, 1, 2]))
     g["mesh_by_length"] = draw(st.sampled_from([None, None, 8.0, 12.5, 20.0]))
     g["key"] = draw(keys)
+    # symmetry switched off for the whole calculation: force constants then need not have the symmetry of the atomic positions
+    g["nosym"] = draw(st.sampled_from([False, False, False, True]))
     return g
 
 
 def run_observables(spec):
-    ph, out = _phonopy(spec, smat=np.eye(3, dtype=int) * spec["n"])
+    ph, out = _phonopy(spec, smat=np.eye(3, dtype=int) * spec["n"], **({"is_symmetry": False} if spec.get("nosym") else {}))
     if ph is None:
         return out
     if len(ph.supercell) > 64:
         return Out(nontrivial=False, classes=["too_large"])
     ph.force_constants = springs_fc(ph.supercell)
+    if spec.get("nosym"):
+        # direction-dependent springs: translationally invariant, index-permutation symmetric, positive, WITHOUT the point group
+        from oracles.models import dense_fc
+        from vlib.case import rng_from
+
+        extra, _ = dense_fc(ph.supercell, rng_from(spec["key"], 31), asr=True, space_group="translations")
+        ph.force_constants = ph.force_constants + 0.15 * np.abs(ph.force_constants).max() / max(np.abs(extra).max(), 1e-300) * extra
     mesh = spec["mesh_by_length"] if spec["mesh_by_length"] else spec["mesh"]
     res = []
     temps = np.array([0.0, 30.0, 300.0, 1500.0])
@@ -185,12 +194,17 @@ def run_observables(spec):
         ph.run_thermal_properties(temperatures=temps, cutoff_frequency=1e-3 * float(np.abs(f).max()), band_indices=bi)
         tpb = ph.get_thermal_properties_dict()
         ph.run_thermal_properties(temperatures=temps, cutoff_frequency=1e-3 * float(np.abs(f).max()))
+        fm_ = float(np.abs(f).max())
+        mom = []
+        for order in (0, 1, 2) if fm_ > 1e-3 else ():  # (an all-zero spectrum has no mode inside any window: nothing to average)
+            ph.run_moment(order=order, freq_min=0.4 * fm_, freq_max=2.0 * fm_)  # never empty: the top mode is inside
+            mom.append(float(ph.get_moment()))
         fmax = float(np.abs(f).max()) + 1e-3
         ph.run_total_dos(sigma=fmax / 25, freq_min=-0.1 * fmax, freq_max=1.15 * fmax, freq_pitch=fmax / 60)
         dos = ph.get_total_dos_dict()["total_dos"]
         res.append({"wsum": w.sum(), "m2": (w[:, None] * f ** 2).sum() / w.sum(), "m1": (w[:, None] * np.abs(f)).sum() / w.sum(),
                     "F": tp["free_energy"], "S": tp["entropy"], "Cv": tp["heat_capacity"], "dos": dos,
-                    "F_py": Fpy, "S_py": Spy, "Cv_py": Cpy, "F_bands": tpb["free_energy"], "S_bands": tpb["entropy"], "Cv_bands": tpb["heat_capacity"], "nq": len(w),
+                    "moment0_window": mom[0] if mom else 0.0, "moment1_window": mom[1] if mom else 0.0, "moment2_window": mom[2] if mom else 0.0, "F_py": Fpy, "S_py": Spy, "Cv_py": Cpy, "F_bands": tpb["free_energy"], "S_bands": tpb["entropy"], "Cv_bands": tpb["heat_capacity"], "nq": len(w),
                     "mesh": np.array(ph.mesh.mesh_numbers)})
     a, b = res
     ntot = int(np.prod(a["mesh"]))
@@ -199,7 +213,7 @@ def run_observables(spec):
     if a["wsum"] != ntot or b["wsum"] != ntot:
         return Out(ok=False, msg="weights sum %s / %s, grid has %d points" % (a["wsum"], b["wsum"], ntot))
     worst = 0.0
-    for k in ("m2", "m1", "F", "S", "Cv", "F_py", "S_py", "Cv_py", "F_bands", "S_bands", "Cv_bands", "dos"):
+    for k in ("m2", "m1", "moment0_window", "moment1_window", "moment2_window", "F", "S", "Cv", "F_py", "S_py", "Cv_py", "F_bands", "S_bands", "Cv_bands", "dos"):
         x, y = np.asarray(a[k], dtype=float), np.asarray(b[k], dtype=float)
         if np.isnan(x).any() or np.isnan(y).any():
             if np.array_equal(np.isnan(x), np.isnan(y)):
@@ -211,7 +225,7 @@ def run_observables(spec):
             return Out(ok=False, info={"err": e}, msg="%s differs between mesh symmetry on and off: rel %.3e (mesh %s shift %s gc=%s tr=%s; "
                        "%d vs %d q-points)" % (k, e, a["mesh"].tolist(), spec["shift"], spec["gc"], spec["tr"], a["nq"], b["nq"]))
     return Out(ok=True, nontrivial=a["nq"] < b["nq"], classes=["shift:" + spec["shift_kind"], "len" if spec["mesh_by_length"] else "explicit",
-                                                             "n:%d" % spec["n"]], info={"err": worst})
+                                                             "n:%d" % spec["n"], "nosym" if spec.get("nosym") else "sym"], info={"err": worst})
 
 
 SUBCHECKS = [
